@@ -93,7 +93,7 @@ theorem trailer_tracking (hs : Nat) (hhs : 0 < hs) (chunks : List Bytes) :
 /-- Non-vacuity: a 5-byte stream fed as `[1,2] [] [3] [4,5]` with a 3-byte trailer. -/
 example : feedAll 3 [[1, 2], [], [3], [4, 5]] = ⟨[1, 2], [3, 4, 5]⟩ := by decide
 
-/-! ## 5. pack framing: what `write_pack_data` writes is what the readers read -/
+/-! ## 4. pack framing: what `write_pack_data` writes is what the readers read -/
 
 /-- **Sequential round trip.**  With zlib as a parameter (`inflate (deflate x ++ rest) = some (x, rest)`) and a
 trailer hash of `hs > 0` bytes, the pack `write_pack_data` produces for *any* list of well-formed records —
@@ -221,11 +221,11 @@ example :
     (∀ r ∈ recs, wfRec 1 r = true) ∧
       objectsOf recs = .ok [([3], 3, [7, 2, 3, 4, 9]), ([2], 3, [2, 3, 4, 9]), ([1], 3, base)] ∧
       (layoutRecs deflate 12 [] recs).map (fun p => (p.1, p.2.ty, p.2.base))
-        = [(12, 3, .none), (19, 6, .ofs 7), (28, 6, .ofs 9)] ∧
-      resolveAt inflate 1 (fun _ => .error .key) (writePack deflate H recs).1 3 28 = .ok (3, [7, 2, 3, 4, 9]) := by
+        = [(12, 3, .none), (19, 6, .ofs 7), (29, 6, .ofs 10)] ∧
+      resolveAt inflate 1 (fun _ => .error .key) (writePack deflate H recs).1 3 29 = .ok (3, [7, 2, 3, 4, 9]) := by
   refine ⟨by decide, by decide +kernel, by decide +kernel, by decide +kernel⟩
 
-/-! ## 4. index v2: write → load → lookup, sound and complete *except* for the phantom name -/
+/-! ## 5. index v2: write → load → lookup, sound and complete *except* for the phantom name -/
 
 /-- The full statement one would like: looking a name up in the written index finds exactly the
 entries that were written.  **False for the code as it is** (`index_phantom_counterexample`). -/
